@@ -92,7 +92,7 @@ def run_check(prop, tier, seed, timeout, verbose):
     units = getattr(mod, "UNITS", None) or [k for k, c in contracts.items() if prop in c.props]
     lemmas = [l for l in C.all_lemmas() if prop in l.props]
     assumptions = list(getattr(mod, "ASSUMPTIONS", []))
-    violations, known_lines, undecided, errors = [], [], [], []
+    violations, known_lines, undecided, errors, notes = [], [], [], [], []
     all_obs, all_covers, unit_results = [], [], []
     for key in units:
         c = contracts[key]
@@ -225,10 +225,14 @@ def run_check(prop, tier, seed, timeout, verbose):
             k = match_known(known, prop, unit, f)
             if k:
                 known_lines.append(f"KNOWN-FINDING: property={prop} {k['what']} [function={unit} class={f.get('klass')}]")
-            elif nat.get("proved", True) and any(r.key == unit and not r.error for r in unit_results) \
-                    and not any(ob.unit == unit and ob.status != "unsat" for ob in all_obs):
-                errors.append(f"engine/native disagreement on {unit}: all obligations discharged but native input fails: {json.dumps(f)[:300]}")
             else:
+                if nat.get("proved", True) and any(r.key == unit and not r.error for r in unit_results) \
+                        and not any(ob.unit == unit and ob.status != "unsat" for ob in all_obs):
+                    # every obligation of the unit is discharged, yet an input fails on the real code: the failing
+                    # input is what counts (it replays); the cause is code outside the unit that the native run goes
+                    # through (constructors, callers) or a gap in the contract -- noted in the evidence
+                    notes.append(f"native failure on {unit} although all its obligations are discharged "
+                                 f"(code outside the unit, or a contract gap): {json.dumps(f)[:200]}")
                 path = write_replay(replay_dir, prop, unit, [], f, index)
                 violations.append(f"VIOLATION property={prop} replay={path}")
                 break
@@ -237,6 +241,8 @@ def run_check(prop, tier, seed, timeout, verbose):
                    native, assumptions, wall, len(violations), undecided, errors, known_lines, timeout)
     for l in sorted(set(known_lines)):
         print(l)
+    for l in notes:
+        print("NOTE " + l)
     n_ob = len(all_obs) + len(extra_results)
     n_ok = sum(1 for ob in all_obs if ob.status == "unsat") + sum(1 for x in extra_results if x[1])
     print(f"{prop} [{tier}]: {n_ok}/{n_ob} obligations discharged over {len(units)} functions + {len(lemmas)} lemmas; "
